@@ -122,7 +122,11 @@ def describe(v, depth=0):
              "mro": [qual(c) for c in v.__mro__]}
         return d
     if isinstance(v, (types.FunctionType, types.BuiltinFunctionType, types.MethodType)):
-        return {"k": "func", "qualname": qual(v), "repo": is_repo(v), "name": getattr(v, "__name__", None)}
+        qn = qual(v)
+        slf = getattr(v, "__self__", None)
+        if isinstance(slf, type) and not is_repo(slf):
+            qn = f"{slf.__module__}.{slf.__qualname__}.{v.__name__}"      # bound classmethod of an external class
+        return {"k": "func", "qualname": qn, "repo": is_repo(v), "name": getattr(v, "__name__", None)}
     if callable(v):
         return {"k": "callable", "qualname": qual(type(v)), "repr": repr(v)[:80], "name": getattr(v, "__name__", None)}
     return {"k": "opaque", "type": qual(type(v)), "repr": repr(v)[:80]}
@@ -178,9 +182,12 @@ def resolve_chains(modobj, src, into):
             # only follow modules and classes (attribute reads on instances are runtime behaviour)
             if isinstance(v, (types.ModuleType, type)) and hasattr(v, a):
                 try:
-                    v = inspect.getattr_static(v, a) if isinstance(v, type) else getattr(v, a)
-                    if isinstance(v, (staticmethod, classmethod)):
-                        v = v.__func__
+                    if isinstance(v, type) and is_repo(v):
+                        v = inspect.getattr_static(v, a)
+                        if isinstance(v, (staticmethod, classmethod)):
+                            v = v.__func__
+                    else:
+                        v = getattr(v, a)
                 except AttributeError:
                     ok = False
                     break
